@@ -81,4 +81,28 @@ def World.propagate (w : World) (p : Nat) (mans : List Man) (t t0 : R) (x : List
   | some n, some tnw => some (cwPropagate tnw n mans t t0 x)
   | _, _ => none
 
+/-- one propagator object of the CURRENT code seen through its mean motion: `mu` = `self.frame.center.body.mu` and `sma` = `self.sma`
+(current values of plain attributes), `memo` = `self._n` (absent until the first read of `n`) -/
+structure Memo where
+  mu : R
+  sma : R
+  memo : Option R
+
+/-- `prop.n`: the value returned and the object afterwards (`nMemoised`, read from the source, tells whether `_n` is kept) -/
+def Memo.read (m : Memo) : R × Memo :=
+  if nMemoised then
+    match m.memo with
+    | some v => (v, m)
+    | none => (meanMotionSrc m.mu m.sma, { m with memo := some (meanMotionSrc m.mu m.sma) })
+  else (meanMotionSrc m.mu m.sma, m)
+
+/-- `prop.sma = sma` and / or `prop.frame = <Hill frame about a centre of parameter mu>`: plain attribute writes, `_n` is not touched -/
+def Memo.write (m : Memo) (mu sma : R) : Memo := { m with mu := mu, sma := sma }
+
+/-- `copy()`: a new object built by `__init__` from the current values: no `_n` -/
+def Memo.copy (m : Memo) : Memo := ⟨m.mu, m.sma, none⟩
+
+/-- the read of proposed_fixes/C16-mean-motion-memo.diff -/
+def Memo.readFixed (m : Memo) : R := meanMotionSrc m.mu m.sma
+
 end BeyondVerif.F
